@@ -50,6 +50,10 @@ def main():
             raise SystemExit("/repo is dirty; refusing")
         try:
             apply(m)
+            r = subprocess.run(["/venv/bin/python", "-c", "import sys; sys.path.insert(0, '/repo/src'); import redress, redress.policy.runner.async_core"], capture_output=True, text=True)
+            if r.returncode:
+                print(name, "DOES NOT IMPORT:", r.stderr.strip().splitlines()[-1])
+                continue
             tests = "-"
             if a.tests:
                 r = subprocess.run("cd /repo && /venv/bin/python -m pytest -q -x -p no:cacheprovider --timeout=900 --no-cov 2>&1 | tail -1",
@@ -59,7 +63,7 @@ def main():
             res = {}
             for pid in props:
                 r = subprocess.run(["/venv/bin/python", "-B", "/verif/run.py", "check", pid, "--tier", a.tier],
-                                   capture_output=True, text=True)
+                                   capture_output=True, text=True, timeout=1500)
                 keys = sorted({l.strip().split("]")[0][1:] for l in r.stdout.splitlines() if l.strip().startswith("[")})
                 res[pid] = (r.returncode, keys)
         finally:
